@@ -3,6 +3,7 @@ import itertools
 import time
 import z3
 
+from .values import zcheck
 from .values import (V, Int, Str, Bool, SeqV, NONE, ABSENT, TRUE, FALSE, mk_bool, mk_int, mk_str,
                      mk_seq, truthy, clsof, keys_of, EMPTY_MAP, EMPTY_SEQ, EMPTY_SET, pystr)
 from .state import St, Unsupported, Obligation, Static, ExcVal
@@ -128,6 +129,9 @@ class Core:
         return t
 
     def set(self, st, objv, field, val):
+        ref = z3.simplify(V.ref(objv))
+        if not self._is_alloc_term(ref):
+            self.on_heap_write(st, field, ref)
         st.heap[field] = z3.Store(st.H(field), V.ref(objv), val)
         st.ghost.setdefault('$writes', [])
         st.ghost['$writes'] = st.ghost['$writes'] + [(field, V.ref(objv), list(st.pc))]
@@ -145,6 +149,45 @@ class Core:
         if n.get_id() in st.facts:
             return False
         return None
+
+    def on_heap_write(self, st, field, ref):
+        """a pre-existing object is written: facts about heap-implicit predicates (wf_eval, EV, pr, ...) are
+        dropped -- EV-facts always, the shape predicates unless the object is provably outside their footprint"""
+        from specs.wf import HEAP_IMPLICIT, EV_SYMS, fp
+        tagged = [(i, _mentions(p)) for i, p in enumerate(st.pc)]
+        if not any(m & HEAP_IMPLICIT for _, m in tagged):
+            return
+        outside = self.impossible(st, fp(ref), 1500)
+        drop = EV_SYMS if outside else HEAP_IMPLICIT
+        keep = [p for (i, m), p in zip(tagged, st.pc) if not (m & drop)]
+        if len(keep) != len(st.pc):
+            st.pc[:] = keep
+            st.facts = set()
+            for p in keep:
+                st.note_fact(p)
+            st.ghost['$dropped_heap_facts'] = st.ghost.get('$dropped_heap_facts', 0) + 1
+
+    def invalidate(self, st, preserves=()):
+        """a callee wrote the heap: drop facts about heap-implicit predicates, except ground atoms of the
+        predicates the callee's contract declares it preserves"""
+        from specs.wf import HEAP_IMPLICIT
+        keep = []
+        changed = False
+        for p in st.pc:
+            m = _mentions(p)
+            if not (m & HEAP_IMPLICIT):
+                keep.append(p)
+                continue
+            if z3.is_app(p) and p.decl().kind() == z3.Z3_OP_UNINTERPRETED and p.decl().name() in preserves \
+                    and not (m - {p.decl().name()}) & HEAP_IMPLICIT:
+                keep.append(p)
+                continue
+            changed = True
+        if changed:
+            st.pc[:] = keep
+            st.facts = set()
+            for p in keep:
+                st.note_fact(p)
 
     def val(self, st, v):
         """content value of a container: the value itself if immutable, else the $val slot."""
@@ -178,6 +221,12 @@ class Core:
         return z3.Or(V.is_dict(v), z3.And(V.is_obj(v), self.isinst_ref(V.ref(v), 'dict'),
                                           V.is_dict(self.val(st, v))))
 
+    def is_maplike(self, st, v):
+        """dict-like, or an abstract MutableMapping object (RequestContext.to_policy_values()) read through $val"""
+        return z3.Or(self.is_dictlike(st, v),
+                     z3.And(V.is_obj(v), self.isinst_ref(V.ref(v), 'collections.abc.MutableMapping'),
+                            V.is_dict(self.val(st, v))))
+
     def is_setlike(self, st, v):
         return z3.Or(V.is_sset(v), z3.And(V.is_obj(v), self.isinst_ref(V.ref(v), 'set'),
                                           V.is_sset(self.val(st, v))))
@@ -200,7 +249,12 @@ class Core:
     def truth(self, st, v):
         if isinstance(v, Static):
             return z3.BoolVal(True)
-        return z3.If(self.is_container_obj(v), truthy(z3.Select(st.H('$val'), V.ref(v))), truthy(v))
+        if self.known(st, V.is_bool(v)) is True:
+            return V.b(v)
+        k = self.known(st, V.is_obj(v))
+        if k is False:
+            return truthy(v)
+        return z3.If(self.is_container_obj(v), truthy(self.select(st, st.H('$val'), V.ref(v))), truthy(v))
 
     def alloc(self, st, cname):
         r = st.ap
@@ -261,15 +315,13 @@ class Core:
         key = tuple(sorted(st.facts)) if False else None
         t0 = time.time()
         s = z3.Solver()
-        s.set('timeout', self.feas_timeout)
         s.add([_strip_quant(p) for p in st.pc])
-        r = s.check()
+        r = zcheck(s, self.feas_timeout)
         self.stats['feas_calls'] += 1
         if r == z3.unknown and self.stage2_ms:
             s2 = z3.Solver()
-            s2.set('timeout', self.stage2_ms)
             s2.add(st.pc)
-            r = s2.check()
+            r = zcheck(s2, self.stage2_ms)
         self.stats['feas_s'] += time.time() - t0
         return r != z3.unsat
 
@@ -282,10 +334,9 @@ class Core:
     def impossible(self, st, cond, timeout=4000):
         """full-strength check (quantified facts included) that cond cannot hold on this path"""
         s = z3.Solver()
-        s.set('timeout', timeout)
         s.add(st.pc)
         s.add(cond)
-        return s.check() == z3.unsat
+        return zcheck(s, timeout) == z3.unsat
 
     def split(self, st, cond, strong=False):
         """-> (state where cond holds | None, state where it does not | None); strong: also ask the full
@@ -293,9 +344,9 @@ class Core:
         a, b = self._split(st, cond)
         if strong:
             if a is not None and b is not None:
-                if self.impossible(a, z3.BoolVal(True), 600):
+                if self.impossible(a, z3.BoolVal(True), 250):
                     a = None
-                elif self.impossible(b, z3.BoolVal(True), 600):
+                elif self.impossible(b, z3.BoolVal(True), 250):
                     b = None
         return a, b
 
@@ -369,3 +420,29 @@ def _strip_quant(t):
         r = t
     _SQ[k] = (t, r)         # keep t alive so the id stays unique
     return r
+
+
+_MS = {}
+
+
+def _mentions(t):
+    """names of the uninterpreted function symbols (arity > 0) occurring in t"""
+    k = t.get_id()
+    if k in _MS:
+        return _MS[k][1]
+    out = set()
+    todo, seen = [t], set()
+    while todo:
+        x = todo.pop()
+        i = x.get_id()
+        if i in seen:
+            continue
+        seen.add(i)
+        if z3.is_quantifier(x):
+            todo.append(x.body())
+        elif z3.is_app(x):
+            if x.num_args() > 0 and x.decl().kind() == z3.Z3_OP_UNINTERPRETED:
+                out.add(x.decl().name())
+            todo.extend(x.children())
+    _MS[k] = (t, out)
+    return out
